@@ -59,6 +59,7 @@ class Recorder:
         self.classes = Counter()
         self.known = {}
         self.info = {}
+        self.sums = Counter()
         self.last_fail = None
 
     def breadcrumb(self, case):
@@ -73,6 +74,8 @@ class Recorder:
         for k, v in res.get("info", {}).items():
             if isinstance(v, (int, float)):
                 self.info[k] = max(self.info.get(k, v), v)
+        for k, v in res.get("sums", {}).items():
+            self.sums[k] += v
         unlisted = []
         for v in res["viol"]:
             e = match_known(self.prop, v["sig"])
@@ -99,7 +102,7 @@ class Recorder:
     def out(self, **kw):
         d = dict(shard=self.shard["id"], evaluations=self.evaluations,
                  hashes=sorted(self.hashes), samples=self.samples,
-                 classes=dict(self.classes), known=self.known, info=self.info,
+                 classes=dict(self.classes), known=self.known, info=self.info, sums=dict(self.sums),
                  violation=None, error=None)
         d.update(kw)
         return d
@@ -111,6 +114,8 @@ def run_shard(prop, modname, shard, tier, seed, scratch):
     from hypothesis import HealthCheck, Phase, given, settings
     mod = importlib.import_module(modname)
     rec = Recorder(prop, shard, scratch)
+    from .common import set_crumb
+    set_crumb(rec.breadcrumb)
     t0 = time.time()
     hseed = derive_seed(seed, prop, shard["id"])
     phases = [Phase.generate] if os.environ.get("VERIF_NO_SHRINK") else \
@@ -345,6 +350,7 @@ def main(argv=None):
     hashes = set()
     classes = Counter()
     samples, known, info = [], {}, {}
+    sums = Counter()
     per_shard = {}
     for o in sorted(outs, key=lambda o: o["shard"]):
         hashes.update(o["hashes"])
@@ -359,6 +365,7 @@ def main(argv=None):
             slot["count"] += v["count"]
         for k, v in o["info"].items():
             info[k] = max(info.get(k, v), v)
+        sums.update(o.get("sums", {}))
     violations = []
     for o in outs:
         if o["violation"]:
@@ -383,8 +390,11 @@ def main(argv=None):
     rc = 0
     for sid, fail in violations:
         path = write_replay(prop, sid, fail)
-        v0 = fail["violations"][0]
-        print(f"  shard {sid}: {v0['msg']}\n    sig={v0['sig']}")
+        shown = fail["violations"] if os.environ.get("VERIF_REPORT_ALL") else fail["violations"][:1]
+        for v0 in shown:
+            print(f"  shard {sid}: {v0['msg']}\n    sig={v0['sig']}")
+        if len(fail["violations"]) > len(shown):
+            print(f"    (+{len(fail['violations']) - len(shown)} more unlisted violations in this case; VERIF_REPORT_ALL=1 shows them)")
         print(f"VIOLATION property={prop} replay={path}")
         rc = 1
     if errors:
@@ -402,7 +412,7 @@ def main(argv=None):
             shards=per_shard, classes=dict(sorted(classes.items())),
             known_findings_hit={k: dict(count=v["count"], what=v["what"], example=v["example"])
                                 for k, v in known.items()},
-            metrics=info, workers=nw,
+            metrics=info, totals=dict(sums), workers=nw,
         ),
         assumptions=list(getattr(mod, "ASSUMPTIONS", [])),
         wall_s=round(wall, 2), violations=len(violations),
